@@ -426,6 +426,22 @@ pub fn boundary_shapes(rng: &mut Rng) -> Vec<Prob> {
     out.push(Prob { P: CscMatrix::zeros((1, 1)), q: vec![0.0], A: CscMatrix::zeros((0, 1)), b: vec![], cones: vec![], label: "m=0 zero objective".into(), intent: 3 });
     // empty cones inside the list
     out.push(Prob { P: eye(1), q: vec![1.0], A: CscMatrix::identity(1), b: vec![1.0], cones: vec![ZeroConeT(0), NonnegativeConeT(1), NonnegativeConeT(0), SecondOrderConeT(0)], label: "empty cones".into(), intent: 0 });
+    // tiny curvature, huge linear cost, nonnegative cones only: the KKT starting point has slacks
+    // around -q/eps (1e25 and more) that the two-stage shift must still bring strictly inside
+    // (strict positivity is decided exactly, whatever the magnitude)
+    for (k, &(eps, c)) in [(1e-8, 1e20), (1e-8, 1e17), (1e-6, 1e22), (1e-10, 1e18), (1e-8, -1e20), (1e-4, 3e19)].iter().enumerate() {
+        let n = 1 + k % 3;
+        let mut rows = vec![];
+        let mut b = vec![];
+        for j in 0..n {
+            let mut r = vec![0.0; n]; r[j] = -1.0; rows.push(r); b.push(-1.0);          // x_j >= 1
+            let mut r = vec![0.0; n]; r[j] = 1.0; rows.push(r); b.push(1e3);            // x_j <= 1000
+        }
+        let mut P = CscMatrix::<f64>::identity(n);
+        for v in P.nzval.iter_mut() { *v = eps; }
+        out.push(Prob { P, q: (0..n).map(|j| if j % 2 == 0 { c } else { -c / 3.0 }).collect(), A: dense_to_csc(&rows, 2 * n, n), b,
+                        cones: vec![NonnegativeConeT(2 * n)], label: format!("huge linear cost eps={} c={}", eps, c), intent: 0 });
+    }
     // only empty cones
     out.push(Prob { P: eye(1), q: vec![1.0], A: CscMatrix::zeros((0, 1)), b: vec![], cones: vec![NonnegativeConeT(0), ZeroConeT(0)], label: "only empty cones".into(), intent: 0 });
     // SOC / PSD of dimension one
